@@ -45,15 +45,21 @@ pub struct AesReader<R> {
 }
 
 impl<R: Read> AesReader<R> {
-    pub fn new(reader: R, aes_mode: AesMode, compressed_size: u64) -> AesReader<R> {
+    pub fn new(reader: R, aes_mode: AesMode, compressed_size: u64) -> io::Result<AesReader<R>> {
         let data_length = compressed_size
-            - (PWD_VERIFY_LENGTH + AUTH_CODE_LENGTH + aes_mode.salt_length()) as u64;
+            .checked_sub((PWD_VERIFY_LENGTH + AUTH_CODE_LENGTH + aes_mode.salt_length()) as u64)
+            .ok_or_else(|| {
+                io::Error::new(
+                    io::ErrorKind::InvalidData,
+                    "AES entry is shorter than its salt, password verifier and authentication code",
+                )
+            })?;
 
-        Self {
+        Ok(Self {
             reader,
             aes_mode,
             data_length,
-        }
+        })
     }
 
     /// Read the AES header bytes and validate the password.
